@@ -438,6 +438,16 @@ def check(P: Project, R: Report) -> None:
                 ok = not evs and ret == "False"
             else:
                 ok = False
+                if eff != "touch" and evs == [f"del[{sp}]"]:
+                    # `dropped = store.pop(k, SENTINEL); return dropped is not SENTINEL`: pop with a default removes the entry
+                    # exactly when it is there, and hands back the default exactly when it is not
+                    m_ = re.fullmatch(r"(.+) is not (\w+)", ret)
+                    if m_:
+                        x_, sent_ = m_.group(1), m_.group(2)
+                        popped = an.defs.get(x_, ("", None))[0] or x_
+                        sv_ = P.module_assign(f.module, sent_) if sent_ != "None" else None
+                        private = sent_ == "None" or (isinstance(sv_, ast.Call) and call_name(sv_) == "object" and not sv_.args)
+                        ok = popped == f"{S}.pop({sp}, {sent_})" and private
             R.ob("R3", f"{name}: guarded by presence, boolean on the right arm", ok, f"{f.module.rel}:{node.lineno}",
                  f"path {sorted(l for l in st.lits if S in l)} effects {evs} returns {ret}", sample=f"R3 {name}: {sorted(l for l in st.lits if S in l)} → {evs} → {ret}")
         R.ob("R3", f"{name} cannot fall off the end", not out.normal, f.where, "")
